@@ -244,5 +244,11 @@ func (l *interfaceListener) writeToUDPConn(
 
 	resp.written, _, resp.err = c.WriteMsgUDP(req.body, s.respOOB, req.session.raddr)
 
-	l.bodyPool.Put(&s.readBody)
+	// Return the body to the pool only once per session, since there may be
+	// several writes to a single session, e.g. an error response after a
+	// failed write.
+	if body := s.readBody; body != nil {
+		s.readBody = nil
+		l.bodyPool.Put(&body)
+	}
 }
